@@ -70,6 +70,8 @@ First16(k) == IF Len(k) >= 16 THEN SubSeq(k, 1, 16) ELSE k
 U32Octets(v) == LET m == v.mag IN Fill(4 - Len(m), 0) \o m         \* boots / time as 4 octets (values < 2^32)
 
 -----------------------------------------------------------------------------
+NoWalk == [active |-> FALSE, wbuf |-> <<>>, wstop |-> FALSE, yielded |-> <<>>, honest |-> FALSE, mib |-> <<>>]
+
 TOpen ==
   /\ IsEvent("Open") /\ UNCHANGED fails
   /\ LET e == Rec[l] IN
@@ -79,7 +81,43 @@ TOpen ==
               auth |-> e.auth, priv |-> e.priv, akt |-> e.akt, akm |-> e.akm, pkt |-> e.pkt, pkm |-> e.pkm,
               maxbuf |-> e.maxbuf, pending |-> FALSE, op |-> "", reqid |-> Zero, msgid |-> Zero,
               it |-> [start |-> <<>>, last |-> <<>>], inbox |-> <<>>,
-              salts |-> {}, lastSalt |-> <<>>]]
+              salts |-> {}, lastSalt |-> <<>>,
+              walk |-> NoWalk]]
+
+(* C05 / C06: a subtree walk through the SnmpSession iterators.  wbuf = pairs the iterator still has to hand
+   out (in order), wstop = the walk must end when wbuf is exhausted, yielded = names handed out so far. *)
+
+TWalkStart ==
+  /\ IsEvent("WalkStart") /\ UNCHANGED fails
+  /\ LET e == Rec[l]
+         b == OidFromText(e.base).content IN
+     S' = [S EXCEPT ![e.sid] = [@ EXCEPT !.it = [start |-> b, last |-> b],
+                                        !.walk = [active |-> TRUE, wbuf |-> <<>>, wstop |-> FALSE, yielded |-> <<>>,
+                                                  honest |-> e.honest, mib |-> e.mib]]]
+
+(* C05: the entries of the MIB lying strictly below the base, in MIB (lexicographic) order *)
+SubtreeNames(mib, base) == SelectSeq(mib, LAMBDA n : InSubtree(base, n) /\ NormSubs(n) # NormSubs(base))
+
+TYield ==
+  /\ IsEvent("Yield")
+  /\ LET e == Rec[l]  s == S[e.sid] IN
+     IF s.tainted THEN UNCHANGED <<S, fails>>
+     ELSE Judge(e.sid,
+                /\ s.walk.active /\ s.walk.wbuf # <<>>
+                /\ PairMatches(Head(s.walk.wbuf), e.res, e.interp),          \* in the order received, exact values
+                [s EXCEPT !.walk = [@ EXCEPT !.wbuf = Tail(@), !.yielded = Append(@, Head(s.walk.wbuf).name)]])
+
+TWalkEnd ==
+  /\ IsEvent("WalkEnd")
+  /\ LET e == Rec[l]  s == S[e.sid] IN
+     IF s.tainted THEN UNCHANGED <<S, fails>>
+     ELSE Judge(e.sid,
+                /\ s.walk.active /\ s.walk.wbuf = <<>>                       \* nothing accepted is withheld
+                /\ ExcIn("Stop", e.exc, e.bases) =>
+                      /\ s.walk.wstop                                        \* ends only when the replies say so
+                      /\ s.walk.honest => s.walk.yielded = SubtreeNames(s.walk.mib, s.it.start)   \* C05
+                /\ ~ExcIn("Stop", e.exc, e.bases) => s.walk.wstop,            \* an error ended the walk (judged at Recv)
+                [s EXCEPT !.walk = NoWalk])
 
 TClose == /\ IsEvent("Close") /\ S' = [S EXCEPT ![Rec[l].sid] = Closed] /\ UNCHANGED fails
 
@@ -99,6 +137,9 @@ Block(s) == IF s.priv = "des" THEN 8 ELSE 16
 OidClasses(e) == [i \in 1..Len(e.oids) |-> OidFromText(e.oids[i])]
 ExpectedNames(e) == IF e.names # <<>> THEN e.names
                     ELSE [i \in 1..Len(e.oids) |-> OidFromText(e.oids[i]).content]
+(* requests issued by a walk ask for the last OID the walk accepted (C06) - taken from the specification's
+   own iterator state, not from the trace *)
+NamesFor(s, e) == IF e.walk THEN <<s.it.last>> ELSE ExpectedNames(e)
 
 V3HeaderOK(s, m, e) ==
   /\ m.usm.user = s.user
@@ -124,7 +165,7 @@ PlainOf(s, m, interp) ==
 
 ScopedOK(s, sc, e) ==
   /\ sc.ctxEngine = s.engine /\ sc.ctxName = <<>>
-  /\ PduMatchesCall(sc.pdu, e.op, ExpectedNames(e), e.maxrep)
+  /\ PduMatchesCall(sc.pdu, e.op, NamesFor(s, e), e.maxrep)
 
 (* C14: salts never repeat within a key installation and advance by one per message *)
 SaltOK(s, m) ==
@@ -147,7 +188,7 @@ WireOK(s, e) ==
   /\ d.c = Accept                                   \* well-formed, definite, minimal (C03 / C15)
   /\ IF s.ver # "v3"
        THEN /\ d.m.community = s.community
-            /\ PduMatchesCall(d.m.pdu, e.op, ExpectedNames(e), e.maxrep)
+            /\ PduMatchesCall(d.m.pdu, e.op, NamesFor(s, e), e.maxrep)
        ELSE /\ V3HeaderOK(s, d.m, e)
             /\ On("C09") => MacOK(s, e.wire, d.m, e.interp)
             /\ IF HasPriv(s)
@@ -169,10 +210,11 @@ AfterSend(s, e) ==
              ELSE LET plain == PlainOf(s, d.m, e.interp) IN
                   IF plain = Missing \/ DecodePlain(plain).c >= Free THEN [reqid |-> Zero]
                   ELSE DecodePlain(plain).scoped.pdu
-      names == ExpectedNames(e)
+      names == NamesFor(s, e)
   IN [s EXCEPT !.pending = TRUE, !.op = e.op, !.reqid = pdu.reqid,
                !.msgid = IF s.ver = "v3" THEN d.m.hdr.msgId ELSE Zero,
-               !.it = IF e.op \in {"getnext", "getbulk"} /\ names # <<>>
+               !.it = IF e.walk THEN @
+                      ELSE IF e.op \in {"getnext", "getbulk"} /\ names # <<>>
                         THEN (IF e.itstart # <<>> THEN [start |-> e.itstart, last |-> names[1]]
                               ELSE [start |-> names[1], last |-> names[1]])
                         ELSE @,
@@ -195,6 +237,7 @@ TSend ==
        ELSE Judge(e.sid,
                   /\ e.nwire = 1
                   /\ \A i \in 1..Len(e.oids) : OidFromText(e.oids[i]).c # Reject     \* C08: invalid text is never sent
+                  /\ e.walk => (s.walk.active /\ s.walk.wbuf = <<>> /\ ~s.walk.wstop)   \* C06: no request after the end
                   /\ WireOK(s, e),
                   AfterSend(s, e))
 
@@ -290,10 +333,24 @@ Realises(s, r, e) ==
   ELSE IF r.o = "deliver" THEN ResultMatches(Expected(s, r.a.cpdu), e)          \* C02 / C05 / C06 / C07
   ELSE FALSE
 
-AfterRecv(s, r) ==
-  IF r.o = "wouldblock" THEN [s EXCEPT !.inbox = <<>>, !.pending = FALSE]
-  ELSE IF r.o = "raise" THEN [s EXCEPT !.inbox = r.rest, !.pending = FALSE]
-  ELSE [s EXCEPT !.inbox = r.rest, !.pending = FALSE,
+(* iterator and walk state after a delivered reply; e is the recorded call (it resolves the one choice the
+   properties leave open: yield-or-stop when the first reply names the base itself) *)
+WalkAfter(s, x, e) ==
+  IF ~s.walk.active THEN s.walk
+  ELSE IF x.k = "yield" \/ (x.k = "yield-or-stop" /\ NoExc(e)) THEN [s.walk EXCEPT !.wbuf = <<x.vb>>]
+  ELSE IF x.k = "bulk" THEN [s.walk EXCEPT !.wbuf = x.yield, !.wstop = x.stop]
+  ELSE [s.walk EXCEPT !.wstop = TRUE]
+ItAfter(s, x, e) ==
+  IF x.k = "yield" \/ (x.k = "yield-or-stop" /\ NoExc(e)) THEN [s.it EXCEPT !.last = x.vb.name]
+  ELSE IF x.k = "bulk" THEN [s.it EXCEPT !.last = x.last]
+  ELSE s.it
+
+AfterRecv(s, r, e) ==
+  IF r.o = "wouldblock" THEN [s EXCEPT !.inbox = <<>>, !.pending = FALSE, !.walk = [@ EXCEPT !.wstop = TRUE]]
+  ELSE IF r.o = "raise" THEN [s EXCEPT !.inbox = r.rest, !.pending = FALSE, !.walk = [@ EXCEPT !.wstop = TRUE]]
+  ELSE LET x == Expected(s, r.a.cpdu) IN
+       [s EXCEPT !.inbox = r.rest, !.pending = FALSE,
+                 !.it = ItAfter(s, x, e), !.walk = WalkAfter(s, x, e),
                  \* C13: adopt boots/time on every accepted message, engine id once
                  !.boots = IF s.ver = "v3" THEN r.a.usm.boots ELSE @,
                  !.time = IF s.ver = "v3" THEN r.a.usm.time ELSE @,
@@ -307,9 +364,9 @@ TRecv ==
        IF \E r \in rs : r.o = "unjudged"
          THEN S' = [S EXCEPT ![e.sid] = [@ EXCEPT !.tainted = TRUE]] /\ UNCHANGED fails
        ELSE LET good == {r \in rs : Realises(s, r, e)} IN
-            Judge(e.sid, good # {}, IF good # {} THEN AfterRecv(s, CHOOSE r \in good : TRUE) ELSE s)
+            Judge(e.sid, good # {}, IF good # {} THEN AfterRecv(s, CHOOSE r \in good : TRUE, e) ELSE s)
 
-TNext == /\ (TOpen \/ TClose \/ TSetKeys \/ TSend \/ TInject \/ TRecv)
+TNext == /\ (TOpen \/ TClose \/ TSetKeys \/ TSend \/ TInject \/ TRecv \/ TWalkStart \/ TYield \/ TWalkEnd)
          /\ (l' = Len(Rec) + 1) => PrintT(ToJson([fails |-> fails', nfails |-> Len(fails')]))
 TSpec == TInit /\ [][TNext]_tvars
 
